@@ -221,17 +221,18 @@ func viewOf(st map[string]interface{}) view {
 	return v
 }
 
-// query asks `work list` and `work status <unit>`, each bounded by 5 s.
+// query asks `work list` and `work status <unit>`, each bounded by 25 s (an answer later than 20 s
+// counts as a blocked daemon; a busy machine answers in well under that).
 func query(sock, unit string) view {
 	t0 := time.Now()
-	lst, err := WorkList(sock, 5*time.Second)
+	lst, err := WorkList(sock, 25*time.Second)
 	lat := time.Since(t0).Seconds()
 	if err != nil {
 		return view{State: -1, Latency: lat, Err: "work list: " + err.Error()}
 	}
 	u, ok := lst[unit].(map[string]interface{})
 	t1 := time.Now()
-	st, serr := WorkStatus(sock, unit, 5*time.Second)
+	st, serr := WorkStatus(sock, unit, 25*time.Second)
 	if l2 := time.Since(t1).Seconds(); l2 > lat {
 		lat = l2
 	}
